@@ -696,6 +696,7 @@ func runC07(c *Ctx) {
 	}
 	// --- C07.opts
 	c.ruleOptsTable("C07.opts", []string{"WithPipelineRegistrationPolicy", "WithNodeRegistrationPolicy"})
+	c.ruleRegistryNodeReaders("C07.node")
 	r.Floor("C07.opts", 6)
 
 	// --- C07.node
